@@ -52,7 +52,8 @@ Section Proofs.
     (forall x x' y, mlook x s = Some y -> mlook x' s = Some y -> x = x') /\
     (forall y, y < nxt s -> exists x, mlook x s = Some y) /\
     (forall y ob, dst s y = Some ob -> exists x o, src x = Some o /\ ocls ob = p_cmap P (ocls o)) /\
-    (forall x y, mlook x s = Some y -> Q x).
+    (forall x y, mlook x s = Some y -> Q x) /\
+    (p_keep P = true -> forall x y, mlook x s = Some y -> In x (keep s)).   (* keep-alive: every memo key is pinned *)
 
   Definition krel (s : st) (k d : addr) : Prop := mlook k s = Some d.
 
@@ -166,8 +167,8 @@ Section Proofs.
     simpl. destruct (mlook a s) as [d|] eqn:Em.
     - exists d, s. split; auto. split; [apply ext_refl|]. split; auto.
     - destruct (HQ a Ha) as [o [Ho Hk]]. rewrite Ho.
-      set (d := nxt s). set (s1 := mkSt ((a, d) :: memo s) (dst s) (S d)).
-      destruct HI as [I1 [I2 [I3 [I4 I5]]]].
+      set (d := nxt s). set (s1 := mkSt ((a, d) :: memo s) (dst s) (S d) (if p_keep P then a :: keep s else keep s)).
+      destruct HI as [I1 [I2 [I3 [I4 [I5 I6]]]]].
       assert (M1 : forall x, x <> a -> mlook x s1 = mlook x s).
       { intros x Hx. unfold mlook, s1. simpl memo. apply assoc_cons_ne. exact Hx. }
       assert (M1a : mlook a s1 = Some d).
@@ -186,7 +187,9 @@ Section Proofs.
           + destruct (I3 y) as [x Hx]; [unfold d in *; lia|]. exists x. rewrite M1; auto.
             intros ->. congruence.
         - intros y ob Hy. simpl in Hy. eauto.
-        - intros x y H. destruct (Nat.eq_dec x a) as [->|Hx]; auto. rewrite M1 in H by auto. eauto. }
+        - intros x y H. destruct (Nat.eq_dec x a) as [->|Hx]; auto. rewrite M1 in H by auto. eauto.
+        - intros Hk' x y H. unfold s1. simpl. rewrite Hk'. destruct (Nat.eq_dec x a) as [->|Hx]; [now left|].
+          right. rewrite M1 in H by auto. eapply I6; eauto. }
       assert (Hn1 : length (unmemo s1) < f).
       { assert (length (unmemo s1) < length (unmemo s)); [|lia].
         unfold unmemo. apply filter_len_lt with (a := a).
@@ -200,7 +203,7 @@ Section Proofs.
       { destruct (p_refix P); auto. now apply refix_flds_id. }
       rewrite Efix. rewrite (Hnolate a o Ho).
       set (ob := mkObj (p_cmap P (ocls o)) (oscal o) fl).
-      set (s3 := mkSt (memo s2) (upd (dst s2) d ob) (nxt s2)).
+      set (s3 := mkSt (memo s2) (upd (dst s2) d ob) (nxt s2) (keep s2)).
       destruct X2 as [B1 [B2 [B3 [B4 B5]]]].
       assert (M2a : mlook a s2 = Some d) by (apply B2; exact M1a).
       exists d, s3. split; auto. split; [|split].
@@ -282,5 +285,38 @@ Section Proofs.
     intros Hr. destruct (walk_total r Hr) as [d [s' [E [HI [M Hd]]]]].
     exists d, s'. split; auto. split; auto. split; auto. split; auto.
     destruct (walk_bisim s' HI Hd) as [Hb [Hf Hi]]. exists (krel s'). split; [exact M|]. split; auto.
+  Qed.
+  (* A state reused for a second conversion.  With keep-alive every source object converted so far stays allocated,
+     so the objects of the whole history live in ONE heap [src] with pairwise distinct addresses (this is what
+     [keep_memo_keys] below provides to the allocator).  Then the second conversion is as correct as the first, and the
+     first result is still valid. *)
+  Theorem walk_twice r1 r2 : Q r1 -> Q r2 ->
+    exists d1 s1 d2 s2,
+      walk P src (S (length U)) r1 st0 = Some (d1, s1) /\
+      walk P src (S (length U)) r2 s1 = Some (d2, s2) /\ Inv s2 /\
+      iso src r1 (dst s2) d1 /\ iso src r2 (dst s2) d2.
+  Proof.
+    intros H1 H2. destruct (walk_total r1 H1) as [d1 [s1 [E1 [HI1 [M1 D1]]]]].
+    assert (Hn : length (unmemo s1) < S (length U)).
+    { unfold unmemo. pose proof (filter_len_all (fun x => match mlook x s1 with None => true | Some _ => false end) U). lia. }
+    destruct (walk_ok (S (length U)) r2 s1 HI1 H2 Hn) as [d2 [s2 [E2 [X [HI2 M2]]]]].
+    exists d1, s1, d2, s2. split; auto. split; auto. split; auto.
+    assert (D2 : forall x y, mlook x s2 = Some y -> done s2 x y).
+    { destruct X as [B1 [B2 [B3 [B4 B5]]]]. intros x y H. destruct (mlook x s1) as [y1|] eqn:E.
+      - pose proof (B2 _ _ E) as H'. rewrite H' in H. inversion H; subst y1.
+        eapply done_mono; eauto. destruct HI1 as [J1 _]. eapply J1; eauto.
+      - eauto. }
+    destruct (walk_bisim s2 HI2 D2) as [Hb [Hf Hi]].
+    split; exists (krel s2); (split; [|split; auto]).
+    - unfold krel. destruct X as [_ [B2 _]]. auto.
+    - exact M2.
+  Qed.
+
+  (* the keep-alive invariant, extracted: with p_keep every key of the memo is pinned by the state *)
+  Theorem keep_memo_keys fuel a s d s' : p_keep P = true -> Inv s -> Q a -> length (unmemo s) < fuel ->
+    walk P src fuel a s = Some (d, s') -> forall x y, mlook x s' = Some y -> In x (keep s').
+  Proof.
+    intros Hk HI Ha Hn E. destruct (walk_ok fuel a s HI Ha Hn) as [d' [s'' [E' [_ [HI' _]]]]].
+    rewrite E in E'. inversion E'; subst. destruct HI' as [_ [_ [_ [_ [_ J6]]]]]. exact (J6 Hk).
   Qed.
 End Proofs.
